@@ -548,6 +548,7 @@ def run(chk, repo, tier):
     run_l12(chk, repo)
     run_l13(chk, repo)
     run_l14(chk, repo)
+    run_l15(chk, repo)
 
 
 def dict_in(lf, nid):
@@ -928,3 +929,50 @@ def run_l14(chk, repo):
                               witness='two threads locking dir/lock and dir//lock exclusively are both granted')
     if n < 2:
         raise AnalysisError(f'L14: only {n} lock levels found in path_lock')
+
+
+def run_l15(chk, repo):
+    """L15: an exclusive request waits for (or is refused because of) the holds of OTHER threads; its own holds are what the
+    thread has in the holder table, whatever kind of request it makes. Whether the request is reentrant decides only what
+    happens afterwards (RecursiveDeadlockError). So the wait / refuse conditions of _lock_ex, with their locals resolved, are
+    functions of the holder table and the thread id alone - not of the flags of the request"""
+    from sa.cfg import CFG
+    from sa import reach
+    L15 = chk.rule('L15', 'ShareableThreadLock._lock_ex: the "held by other threads" conditions (wait loop and refusal) do not '
+                          'depend on the reentrant / blocking flags of the request', floor=2)
+    m = repo.module(MOD)
+    cls = m.classes.get('ShareableThreadLock')
+    f = cls.methods.get('_lock_ex') if cls else None
+    if f is None:
+        raise AnalysisError('L15: ShareableThreadLock._lock_ex not found')
+    flags = {a.arg for a in f.node.args.args if a.arg != 'self'}
+    cfg = CFG(f.node)
+    n = 0
+    for t in [x for x in cfg.nodes.values() if x.kind == 'test']:
+        src_ = unparse(t.ast)
+        if '_acquired_by' not in src_:
+            try:
+                src_ = unparse(reach.expand_expr(cfg, t.id, t.ast))
+            except Exception:
+                pass
+        if '_acquired_by' not in src_ or isinstance(t.ast, ast.Name) or unparse(t.ast) in (f'self._acquired_by',):
+            continue
+        # only conditions that compare the table with the thread's own holds (a difference / another key), not `if table:`
+        if not any(isinstance(x, (ast.BinOp, ast.Compare, ast.Call)) for x in ast.walk(t.ast)):
+            continue
+        try:
+            full = reach.expand_expr(cfg, t.id, t.ast, depth=4)
+        except TypeError:
+            full = reach.expand_expr(cfg, t.id, t.ast)
+        used = {x.id for x in ast.walk(full) if isinstance(x, ast.Name)} & flags
+        n += 1
+        chk.instance(L15, f'_lock_ex: `{unparse(t.ast)[:60]}` independent of the request flags: {not used}')
+        if used:
+            chk.violation(L15, m.rel, f.qualname, f'{unparse(t.ast)[:60]} depends on {sorted(used)}',
+                          f'what counts as "held by others" depends on the flag(s) {sorted(used)}: a non-reentrant request of a '
+                          f'thread that already holds the lock waits for its own hold (forever) instead of raising '
+                          f'RecursiveDeadlockError', line=t.line,
+                          witness='with path_lock(p, shared=False): with path_lock(p, shared=False, reentrant=False): the inner '
+                                  'request hangs')
+    if n < 2:
+        raise AnalysisError(f'L15: only {n} holder-table conditions found in _lock_ex')
